@@ -821,6 +821,8 @@ inductive Op (V : Type)
   | unionN (others : List (List (PArgs V))) (pos : Nat)   -- `union(o_1, …, self at position pos, …, o_k)`
   | chfix (n : String) (v : V)      -- `change_fixed_value(v)` on the object + `update_fixed_param_value_cache()`
   | copy
+  | badArgs     -- `add_param` / `map_param` / `union` with a Parameter whose constructor arguments are no single
+                -- numbers (`Parameter('a', [1., 2.])`): the `TypeError` is raised before any container is touched
   | map (a : PArgs V) (models : Option (List Nat)) (al : AliasArg)   -- mapper histories only
   deriving Repr
 
@@ -872,6 +874,7 @@ def PSet.step (s : PSet V) : Op V → PSet V × Except Err Unit
     | .ok ts => liftE s (PSet.unionN (insertAt ts pos s))
   | .chfix n v => s.changeFixedValue n v
   | .copy => (s, .ok ())
+  | .badArgs => (s, .error .typeError)
   | .map _ _ _ => (s, .error .typeError)
 
 /-- one edit of a `ParameterModelMapper` history (fix / float / value act on `global_paramset`) -/
@@ -958,6 +961,7 @@ def step (ps : List (Param V)) : Op V → List (Param V) × Except Err Unit
       | .error e => (ps, .error e)
       | .ok _ => (ps.map (fun q => if q.name = n then { q with initial := v, value := v } else q), .ok ())
   | .copy => (ps, .ok ())
+  | .badArgs => (ps, .error .typeError)
   | .map _ _ _ => (ps, .error .typeError)
 
 def run (ps : List (Param V)) : List (Op V) → List (Param V)
